@@ -18,7 +18,7 @@ fn op_list() -> Vec<String> {
     let mut v = ops_ecc::jj_ops();
     v.extend(ops_ecc::jj_ops());
     v.extend(ops_ecc::fc_ops());
-    v
+    crate::ops::dev_filter(v)
 }
 
 impl Check for C06 {
@@ -52,10 +52,18 @@ impl Check for C06 {
     fn generate(&self, rng: &mut Prng, tier: Tier, idx: u64) -> Value {
         let all = op_list();
         let mut op = all[(idx as usize) % all.len()].clone();
-        let heavy = op.ends_with("mul_by_constant") && !op.starts_with("ec.jj");
-        if heavy && tier == Tier::Quick && (idx / all.len() as u64) % 4 != 0 {
-            // foreign scalar multiplications are large circuits: one in four in the quick tier
-            op = op.replace("mul_by_constant", "add");
+        let heavy = (op.ends_with("mul_by_constant") || op.contains(".msm")) && !op.starts_with("ec.jj");
+        let round = idx / all.len() as u64;
+        let keep = match (tier, op.contains(".msm")) {
+            // foreign scalar multiplications are large circuits: one in four (msm: one in six) in the quick tier
+            (Tier::Quick, false) => round % 4 == 0,
+            (Tier::Quick, true) => round % 6 == if op.ends_with("msm") { 1 } else { 4 },
+            (Tier::Thorough, true) => round % 3 == 0,
+            _ => true,
+        };
+        if heavy && !keep {
+            let last = op.rsplit('.').next().unwrap().to_string();
+            op = op.replace(&last, "add");
         }
         let op = &op;
         let case = ops::gen_case(rng, op);
@@ -70,7 +78,7 @@ impl Check for C06 {
             }
         };
         let n_plans = if heavy && n_plans > 2 { 2 } else { n_plans };
-        opcheck::to_json(&Scn { case, fault_seed: rng.u64(), n_plans, only: None })
+        opcheck::to_json(&Scn { case, fault_seed: rng.u64(), n_plans, only: None, only_late: None })
     }
     fn execute(&self, scn: &Value, st: &mut Stats) -> Verdict {
         let s: Scn = match serde_json::from_value(scn.clone()) {
